@@ -15,8 +15,8 @@ LEVEL = "exploration"
 RTOL = 1e-7
 RTOL_EXT = 1e-6
 
-CLASSES = ["Cuboid", "Cylinder", "CylinderSegment", "Sphere", "Tetrahedron", "TetrahedronLeft", "TriangularMesh", "Triangle", "Circle",
-           "Polyline", "Dipole"]
+CLASSES = ["Cuboid", "Cylinder", "CylinderSegment", "Sphere", "Tetrahedron", "TetrahedronLeft", "TriangularMesh", "TriangularMeshFromMesh",
+           "Triangle", "Circle", "Polyline", "Dipole"]
 POSE = ((0.3, -0.2, 0.5), (0.4, -0.3, 0.8))
 POSES = [POSE, ((-1.0, 2.0, 0.1), (0.0, 0.0, 2.2)), ((0.0, 0.0, 0.0), (0.0, 0.0, 0.0))]
 
@@ -25,16 +25,20 @@ def params(cls, ri):
     if cls == "TetrahedronLeft":  # left-handed vertex order: the chirality fix must not depend on the unit
         v = C01.TV
         return "Tetrahedron", {"vertices": [v[0], v[2], v[1], v[3]]}
+    if cls == "TriangularMeshFromMesh":   # the same bodies through the triangle-soup constructor
+        return "TriangularMesh", C01.REGIMES["TriangularMesh"][ri]
     return cls, C01.REGIMES[cls][ri]
 
 
 def nregimes(cls, tier="quick"):
     if cls == "TetrahedronLeft":
         return 1
+    if cls == "TriangularMeshFromMesh":
+        cls = "TriangularMesh"
     return len(C01.REGIMES[cls]) if tier == "thorough" else min(3, len(C01.REGIMES[cls]))
 
 
-def scaled_source(cls0, par, s, exc_mag, pose):
+def scaled_source(cls0, par, s, exc_mag, pose, via=None):
     import magpylib as magpy
     from scipy.spatial.transform import Rotation as R
 
@@ -49,6 +53,25 @@ def scaled_source(cls0, par, s, exc_mag, pose):
             par2[k] = (np.array(v, float) * s).tolist() if not np.isscalar(v) else v * s
     exc = np.array(C01.EXC[0]) * exc_mag
     p = (np.array(pose[0]) * s, pose[1])
+    if via == "from_mesh":
+        soup = np.array(par2["vertices"], float)[np.array(par2["faces"])]
+        return magpy.magnet.TriangularMesh.from_mesh(mesh=soup, polarization=tuple(exc), position=p[0], orientation=R.from_rotvec(p[1]),
+                                                     check_open="ignore", check_disconnected="ignore", check_selfintersecting="ignore",
+                                                     reorient_faces="ignore")
+    if via == "ops":
+        # the same pose reached through the API: built at another place, moved, then rotated about an anchor next to it
+        # (final position = a + R (p0 - a)); all lengths, also the anchor offset, carry the unit
+        Rm = R.from_rotvec(p[1])
+        a = p[0] + np.array((0.013, -0.021, 0.017)) * s
+        p0 = a + Rm.inv().apply(p[0] - a)
+        if cls0 in ("Circle", "Polyline"):
+            C = magpy.current.Circle if cls0 == "Circle" else magpy.current.Polyline
+            o = C(current=2.3 * exc_mag, **par2)
+        else:
+            o = C01.make(cls0, par2, tuple(exc), ((0.0, 0.0, 0.0), (0.0, 0.0, 0.0)))
+        o.move(p0)
+        o.rotate(Rm, anchor=a)
+        return o
     if cls0 in ("Circle", "Polyline"):
         C = magpy.current.Circle if cls0 == "Circle" else magpy.current.Polyline
         return C(current=2.3 * exc_mag, position=p[0], orientation=R.from_rotvec(p[1]), **par2)
@@ -94,10 +117,12 @@ def run_case(c):
     problems = []
 
     def evaluate(k, mag):
-        s = 10.0 ** k
+        # the converter variant uses a unit whose numbers are not round in any decade (a grid-snapping converter then shows)
+        s = 10.0 ** k * (1.23456789 if cls == "TriangularMeshFromMesh" else 1.0)
         try:
             with common.time_limit(120):
-                src = scaled_source(cls0, par, s, mag, POSE)
+                via = "from_mesh" if cls == "TriangularMeshFromMesh" else ("ops" if c.get("pose_by_ops") else None)
+                src = scaled_source(cls0, par, s, mag, POSE, via)
                 out = {}
                 for f in fields:
                     v = np.asarray(getattr(src, "get" + f)(obs1 * s)).reshape(-1, 3)
@@ -237,6 +262,8 @@ def run(tier, seed):
             for pose in ((0, 1, 2) if tier == "thorough" else (0, 1)):
                 cases.append({"cls": cls, "regime": ri, "ks": ks, "mags": [1.0, 1e-12, 1e12], "maxcells": 300 if tier == "quick" else 100000,
                               "pose": pose, "seeds": [0, 1] if tier == "quick" else [0, 1, 2, 3]})
+            if cls != "TriangularMeshFromMesh" and (ri == 0 or tier == "thorough"):
+                cases.append({"cls": cls, "regime": ri, "ks": ks, "mags": [1.0], "maxcells": 100, "pose": 0, "seeds": [0], "pose_by_ops": True})
     from mc.props import C02
 
     exps = list(SURF_EXPONENTS) if tier == "quick" else [e for e in range(-30, 31, 3) if e != 0]
@@ -267,7 +294,7 @@ def run(tier, seed):
             viols.append({"key": f"C12|{c['cls']}|{decade_bucket(k)}|{cell}|{k0}",
                           "what": f"{c['cls']} regime {c['regime']} scale 1e{k}: {kind}: {detail}",
                           "case": {"cls": c["cls"], "regime": c["regime"], "ks": [k], "mags": c["mags"], "maxcells": c["maxcells"],
-                                   "pose": c.get("pose", 0), "seeds": c.get("seeds", [0])},
+                                   "pose": c.get("pose", 0), "seeds": c.get("seeds", [0]), "pose_by_ops": c.get("pose_by_ops", False)},
                           "observed": [k, kind, detail]})
     cov = {
         "evaluations": n * 5, "distinct_nontrivial": n,
